@@ -59,7 +59,7 @@ RULE = (
 )
 BOUNDS = {
     "quick": {
-        "bfs_layouts": "P<=2: all 56 layouts; P=3: all 27 with three size-1 plates + all 108 with exactly one size-2 plate",
+        "bfs_layouts": "P<=3: all 399 layouts (plate sizes 1-2 x value kinds), one row order each",
         "reveal_list_len": 2, "unknown_ids": 1, "interleave": "alternating per layout",
         "cli_layouts": "P<=2 with size-1 plates (12) + 6 hand-picked (P=2 with a size-2 plate, P=3)",
         "ctor_rows": 5, "setobs_rows": 4, "max_states_per_layout": "8 * 2^P (never hit)",
@@ -173,7 +173,7 @@ def plan(tier, seed):
 
     if tier == "quick":
         k = 0
-        for P, max_two in ((1, None), (2, None), (3, 1)):
+        for P, max_two in ((1, None), (2, None), (3, None)):
             for plates in _layouts(P, max_two):
                 add(plates, _has_two(plates) and k % 2 == 0)
                 k += 1
